@@ -273,3 +273,6 @@ fn e2e(scn: &Value) -> Value {
 pub fn run(scn: &Value) -> Value {
     match crate::util::s(&scn["mode"]) { "proto" => proto(scn), "e2e" => e2e(scn), m => json!({"kind": "tool-error", "where": format!("mode {m}")}) }
 }
+
+#[allow(dead_code)]
+pub fn gen(_rng: &mut crate::util::Rng, i: usize) -> Value { json!({"id": i}) }
